@@ -6,12 +6,16 @@
 package main
 
 import (
-	"image"
-	"image/color"
+	dmdec "github.com/makiuchi-d/gozxing/datamatrix/decoder"
+	qrdec "github.com/makiuchi-d/gozxing/qrcode/decoder"
+	qrenc "github.com/makiuchi-d/gozxing/qrcode/encoder"
+
 	"bytes"
 	"encoding/json"
 	"fmt"
 	"hash/crc32"
+	"image"
+	"image/color"
 	"math/rand"
 	"runtime"
 	"sort"
@@ -184,6 +188,44 @@ func run(j job) (uint32, uint32) {
 		bmp, _ := gozxing.NewBinaryBitmapFromImage(img)
 		res, rerr := aztec.NewAztecReader().Decode(bmp, nil)
 		return crc32.ChecksumIEEE([]byte(fmt.Sprint("aztec", n))), digestResult(res, rerr)
+	case "qrdmg", "dmdmg":
+		// a DAMAGED symbol decoded directly: only then does the Reed-Solomon decoder go past the syndrome test (error locator,
+		// Chien search, Forney) - state shared there does not show on clean symbols
+		var bm *gozxing.BitMatrix
+		if j.Kind == "qrdmg" {
+			code, err := qrenc.Encoder_encode(j.Text, []qrdec.ErrorCorrectionLevel{qrdec.ErrorCorrectionLevel_L, qrdec.ErrorCorrectionLevel_M,
+				qrdec.ErrorCorrectionLevel_Q, qrdec.ErrorCorrectionLevel_H}[j.H%4], nil)
+			if err != nil {
+				return crc32.ChecksumIEEE([]byte("ERR:writer")), 0
+			}
+			m := code.GetMatrix()
+			d := m.GetWidth()
+			bm, _ = gozxing.NewSquareBitMatrix(d)
+			for y := 0; y < d; y++ {
+				for x := 0; x < d; x++ {
+					if m.Get(x, y) == 1 {
+						bm.Set(x, y)
+					}
+				}
+			}
+			bm.Flip(d-1, d-1)
+			bm.Flip(d-1, d-3)
+			res, rerr := qrdec.NewDecoder().Decode(bm, nil)
+			if rerr != nil || res == nil {
+				return crc32.ChecksumIEEE([]byte(fmt.Sprint("qrdmg", d))), crc32.ChecksumIEEE([]byte("ERR:" + kindOf(rerr)))
+			}
+			return crc32.ChecksumIEEE([]byte(fmt.Sprint("qrdmg", d))), crc32.ChecksumIEEE([]byte(res.GetText()))
+		}
+		m, err := datamatrix.NewDataMatrixWriter().Encode(j.Text, gozxing.BarcodeFormat_DATA_MATRIX, 0, 0, nil)
+		if err != nil || m == nil {
+			return crc32.ChecksumIEEE([]byte("ERR:writer")), 0
+		}
+		m.Flip(2, m.GetHeight()-3)
+		res, rerr := dmdec.NewDecoder().Decode(m)
+		if rerr != nil || res == nil {
+			return crc32.ChecksumIEEE([]byte(fmt.Sprint("dmdmg", m.GetWidth()))), crc32.ChecksumIEEE([]byte("ERR:" + kindOf(rerr)))
+		}
+		return crc32.ChecksumIEEE([]byte(fmt.Sprint("dmdmg", m.GetWidth()))), crc32.ChecksumIEEE([]byte(res.GetText()))
 	case "qr":
 		w, r, f = qrcode.NewQRCodeWriter(), qrcode.NewQRCodeReader(), gozxing.BarcodeFormat_QR_CODE
 	case "dm":
